@@ -116,6 +116,10 @@ pub enum Kind {
     /// first element of find_iter() on an owned finder (goes through as_ref)
     IterOwned,
     FinderAsRef,
+    /// a fresh Finder that has already made `k` searches of a warm-up
+    /// haystack (a near miss of the needle: `false`, the needle itself:
+    /// `true`) when it searches the haystack under test
+    FinderWarm(usize, bool, bool),
     TwoWay,
     Rk,
     ShiftOr,
@@ -177,6 +181,13 @@ impl Kind {
                     Kind::PpVn(n.parse().unwrap())
                 } else if let Some(n) = s.strip_prefix("pf-vn") {
                     Kind::PfVn(n.parse().unwrap())
+                } else if let Some(r) = s.strip_prefix("finder-warm:") {
+                    // finder-warm:<k>:<miss|hit>[:thread] - with `thread` the warm-up
+                    // searches are made by ANOTHER thread sharing the finder
+                    let mut it = r.split(':');
+                    let k = it.next().unwrap().parse().unwrap();
+                    let hit = it.next().expect("finder-warm:<k>:<miss|hit>[:thread]") == "hit";
+                    Kind::FinderWarm(k, hit, it.next() == Some("thread"))
                 } else if let Some(r) = s.strip_prefix("rankedall:") {
                     let (rid, pre) = r.rsplit_once(':').expect("rankedall:<id>:<auto|none>");
                     Kind::RankedAll(rid.to_string(), pre == "auto")
@@ -200,6 +211,7 @@ impl Kind {
             Kind::IterOwned => "iter-owned".into(),
             Kind::RIterOwned => "riter-owned".into(),
             Kind::FinderAsRef => "finder-asref".into(),
+            Kind::FinderWarm(k, hit, th) => format!("finder-warm:{}:{}{}", k, if *hit { "hit" } else { "miss" }, if *th { ":thread" } else { "" }),
             Kind::TwoWay => "twoway".into(),
             Kind::Rk => "rk".into(),
             Kind::ShiftOr => "shiftor".into(),
@@ -239,7 +251,7 @@ impl Kind {
     pub fn must_not_alloc(&self) -> bool {
         !matches!(
             self,
-            Kind::FinderOwned | Kind::RFinderOwned | Kind::IterOwned | Kind::RIterOwned | Kind::ShiftOr | Kind::RankedAll(..)
+            Kind::FinderOwned | Kind::RFinderOwned | Kind::IterOwned | Kind::RIterOwned | Kind::ShiftOr | Kind::RankedAll(..) | Kind::FinderWarm(..)
         )
     }
 
@@ -247,7 +259,7 @@ impl Kind {
     /// everything except the harness-side sequence collection - in
     /// particular searching (and iterating) with an OWNED finder.
     pub fn search_must_not_alloc(&self) -> bool {
-        !matches!(self, Kind::RankedAll(..))
+        !matches!(self, Kind::RankedAll(..) | Kind::FinderWarm(_, _, true))
     }
 }
 
@@ -305,6 +317,44 @@ impl VnPp {
     }
 }
 
+/// A second thread that performs warm-up searches on a finder SHARED with
+/// the calling thread (by reference; the caller blocks until the searches
+/// are done, so the borrow outlives its use).
+pub struct Helper {
+    tx: std::sync::mpsc::Sender<(usize, usize, usize, usize)>,
+    rx: std::sync::mpsc::Receiver<()>,
+}
+
+impl Helper {
+    pub fn new() -> Helper {
+        let (tx, jobs) = std::sync::mpsc::channel::<(usize, usize, usize, usize)>();
+        let (done, rx) = std::sync::mpsc::channel::<()>();
+        std::thread::spawn(move || {
+            while let Ok((fp, wp, wl, k)) = jobs.recv() {
+                // SAFETY: the sender blocks in `warm` until we answer, so the
+                // finder and the warm-up haystack are alive; Finder is Sync.
+                let f: &Finder<'_> = unsafe { &*(fp as *const Finder<'_>) };
+                let w: &[u8] = unsafe { std::slice::from_raw_parts(wp as *const u8, wl) };
+                let r = std::panic::catch_unwind(std::panic::AssertUnwindSafe(|| {
+                    for _ in 0..k {
+                        let _ = f.find(w);
+                    }
+                }));
+                let _ = r;
+                if done.send(()).is_err() {
+                    break;
+                }
+            }
+        });
+        Helper { tx, rx }
+    }
+
+    pub fn warm(&self, f: &Finder<'_>, w: &[u8], k: usize) {
+        self.tx.send((f as *const Finder<'_> as usize, w.as_ptr() as usize, w.len(), k)).expect("helper thread gone");
+        self.rx.recv().expect("helper thread gone");
+    }
+}
+
 /// A subject built for one needle.
 pub enum Built<'n> {
     Memmem(&'n [u8]),
@@ -313,6 +363,8 @@ pub enum Built<'n> {
     FinderAll(Finder<'n>),
     /// searched through a fresh `as_ref()` on every call
     FinderAsRef(Finder<'n>),
+    /// (needle, warm-up haystack, warm-up count): a fresh finder per call
+    FinderWarm(&'n [u8], Vec<u8>, usize, Option<Helper>),
     IterFirst(&'n [u8]),
     FinderStatic(Finder<'static>),
     IterOwned(Finder<'static>),
@@ -378,6 +430,17 @@ pub fn build<'n>(kind: &Kind, needle: &'n [u8], pair: Option<Pair>, seed: u64) -
         #[cfg(feature = "alloc")]
         Kind::RIterOwned => Built::RIterOwned(FinderRev::new(needle).into_owned()),
         Kind::FinderAsRef => Built::FinderAsRef(Finder::new(needle)),
+        Kind::FinderWarm(k, hit, th) => {
+            let mut w = vec![b'.'; 5];
+            w.extend_from_slice(needle);
+            if !*hit {
+                if let Some(l) = w.last_mut() {
+                    *l ^= 1;
+                }
+            }
+            w.extend_from_slice(b"..");
+            Built::FinderWarm(needle, w, *k, if *th { Some(Helper::new()) } else { None })
+        }
         Kind::TwoWay => Built::TwoWay(twoway::Finder::new(needle), needle),
         Kind::Rk => Built::Rk(rabinkarp::Finder::new(needle), needle),
         #[cfg(feature = "alloc")]
@@ -503,6 +566,17 @@ impl<'n> Built<'n> {
                 let r = f.as_ref();
                 assert_eq!(r.needle(), f.needle(), "as_ref changed the needle");
                 Ran::Pos(r.find(h))
+            }
+            Built::FinderWarm(n, w, k, th) => {
+                let f = Finder::new(n);
+                if let Some(helper) = th {
+                    helper.warm(&f, w, *k);
+                } else {
+                    for _ in 0..*k {
+                        let _ = f.find(w);
+                    }
+                }
+                Ran::Pos(f.find(h))
             }
             Built::FinderStatic(f) => Ran::Pos(f.find(h)),
             Built::IterOwned(f) => Ran::Pos(f.find_iter(h).next()),
